@@ -9,9 +9,15 @@ import MoneroModel.Proofs.KeyOps
 /-! C13 — "Keys are accepted exactly when canonical, and key arithmetic is the group law".
 Proved here, about the model `Monero.Keys` (which mirrors `PrivateKey::from_slice` / `PublicKey::from_slice` including dalek's
 permissive `decompress` followed by the recompress-and-compare of key.rs): the acceptance conditions and the byte / text /
-consensus round trips. The "is the group law" half of the property: the operators delegate to curve25519-dalek (a dependency), whose results are
-compared on every run with `Ref.Ed25519` (Drv/C13 + harness/src/c13.rs); that this reference IS the group law of the curve
-is proved (section GroupLaw at the end: `C13_group_law`, from Proofs/EdwardsGroup, EdwardsRef, EdwardsLawful). -/
+consensus round trips. The "is the group law" half of the property: the POINT operators delegate to curve25519-dalek (a
+dependency), whose results are compared on every run with `Ref.Ed25519` (Drv/C13 + harness/src/c13.rs). The model of the point
+operators (`Model/KeyOps.lean`) has its own operand path (permissive `point()` of the stored bytes, panic) and its own `+` / `−`
+(dalek's Niels-form addition transcribed: `dalekAdd`, `dalekSub`, proved equal to `Ed.add` / `Ed.sub`); for scalar multiplication,
+`from_private_key` and the final compression it calls the same `Ed.smul/Ed.encodePt` as the reference, so for those the
+comparison is library-vs-reference only. That this reference IS
+the group law of the curve is proved (last section: `C13_curve_points_form_a_group` pins the operations of `EdPoint` to the
+Edwards addition law, `C13_group_law` ties the executable reference to them). The SCALAR operators are modelled after dalek's
+`Scalar52` (conditional subtraction, Montgomery multiplication) and proved to be arithmetic modulo `l` on accepted keys. -/
 namespace C13
 open Monero hiding leNat toBytesLE
 open Monero.Keys Ed
@@ -139,7 +145,9 @@ example : publicAccept (toBytesLE Ed.Gy 32) = true := by decide +kernel
 
 /-! ### the curve is Ed25519 (RFC 8032 §5.1): the literals of `Ref/Ed25519.lean` are pinned by their defining equations -/
 section Constants
-/-- `p = 2^255 − 19`, `l = 2^252 + 27742317777372353535851937790883648493` -/
+/-- `p = 2^255 − 19`, `l = 2^252 + 27742317777372353535851937790883648493`. This restates the defining text of `Ref/Ed25519.lean`
+(`rfl`); it is a readable record, not a check. What pins `l` is `C13_base_point_order` (the base point has order exactly `l`)
+together with its primality (`Proofs/Primes.lean`); `d`, `sqrtm1`, `G` are pinned by the equations below. -/
 theorem C13_p_l_are_ed25519 : Ed.p = 2 ^ 255 - 19 ∧ Ed.l = 2 ^ 252 + 27742317777372353535851937790883648493 := ⟨rfl, rfl⟩
 /-- `d = −121665/121666 (mod p)`, as the reduced residue -/
 theorem C13_d_is_ed25519 : (121666 * Ed.d + 121665) % Ed.p = 0 ∧ Ed.d < Ed.p := by decide
@@ -235,6 +243,42 @@ theorem C13_from_str_sound (s : List Char) (k : Bytes) :
         subst this; exact ⟨rfl, ha⟩
       · rw [if_neg ha] at h; exact absurd h (by simp)
 
+/-- only exactly 64 hexadecimal digits are accepted by the text parsers (`hexVal c` is defined exactly for the ASCII digits
+and the letters a–f, A–F: `C13_hex_digits`) -/
+theorem C13_from_str_only_64_hex_digits (s : List Char) (k : Bytes)
+    (h : publicFromStr s = some k ∨ secretFromStr s = some k) :
+    s.length = 64 ∧ (∀ c ∈ s, (hexVal c).isSome = true) ∧ k.length = 32 := by
+  have key : hexDecode s = some k ∧ k.length = 32 := by
+    rcases h with h | h
+    · obtain ⟨h1, h2⟩ := (C13_from_str_sound s k).1 h
+      exact ⟨h1, ((C13_public_iff k).mp h2).1⟩
+    · obtain ⟨h1, h2⟩ := (C13_from_str_sound s k).2 h
+      exact ⟨h1, ((C13_secret_iff k).mp h2).1⟩
+  obtain ⟨h1, h2⟩ := Monero.Edw.hexDecode_spec s k key.1
+  exact ⟨by rw [h1, key.2], h2, key.2⟩
+/-- the characters with a hex value are exactly the ASCII digits and the letters a–f, A–F (by code point) -/
+theorem C13_hex_digits (c : Char) : (hexVal c).isSome = true ↔
+    (48 ≤ c.toNat ∧ c.toNat ≤ 57) ∨ (97 ≤ c.toNat ∧ c.toNat ≤ 102) ∨ (65 ≤ c.toNat ∧ c.toNat ≤ 70) := by
+  have e : ∀ a b : Char, a ≤ b ↔ a.toNat ≤ b.toNat := fun a b => by
+    rw [Char.le_def, UInt32.le_iff_toNat_le]; rfl
+  unfold hexVal
+  simp only [e]
+  have h0 : ('0' : Char).toNat = 48 := rfl
+  have h9 : ('9' : Char).toNat = 57 := rfl
+  have ha : ('a' : Char).toNat = 97 := rfl
+  have hf : ('f' : Char).toNat = 102 := rfl
+  have hA : ('A' : Char).toNat = 65 := rfl
+  have hF : ('F' : Char).toNat = 70 := rfl
+  rw [h0, h9, ha, hf, hA, hF]
+  split
+  · simp; omega
+  · split
+    · simp; omega
+    · split
+      · simp; omega
+      · simp; omega
+example : publicFromStr (keyToString (toBytesLE 1 32)) = some (toBytesLE 1 32) := by decide +kernel
+
 /-- `Display` is lowercase hexadecimal, two digits per byte, high nibble first — stated against the digit string, not against
 the model's own `hexDigit` -/
 theorem C13_display_is_lowercase_hex (k : Bytes) :
@@ -282,19 +326,68 @@ operations of the abelian group of points of the twisted Edwards curve (`Proofs/
 that `PublicKey::from_slice` accepts. -/
 section GroupLaw
 open Monero.Edw
-/-- the points of −x² + y² = 1 + d·x²·y² over GF(2^255 − 19) form an abelian group under the complete addition law -/
-theorem C13_curve_points_form_a_group : Nonempty (AddCommGroup EdPoint) := ⟨inferInstance⟩
-/-- addition, subtraction, scalar multiplication (k < 2^260), the base point, encoding and strict decoding of the reference
-instance are those of that group: `toPoint (add a b) = toPoint a + toPoint b`, `toPoint (smul k a) = k • toPoint a`, … -/
+/-- the group in which every statement below is made is pinned, coordinate by coordinate: `EdPoint` is exactly the set of
+pairs (x, y) over GF(2^255 − 19) with −x² + y² = 1 + d·x²·y² (d the literal of `Ref/Ed25519.lean`, pinned by
+`C13_d_is_ed25519`), two points are equal iff their coordinates are; `+` is the Edwards addition law (its denominators never
+vanish: the law is complete), `0` is (0, 1), `−(x, y)` is (−x, y), `P − Q` is `P + (−Q)`, `n • P` is repeated addition; and
+these operations satisfy the axioms of an abelian group. (The former statement `Nonempty (AddCommGroup EdPoint)` did not
+mention the law and was true of any non-empty type.) -/
+theorem C13_curve_points_form_a_group :
+    (dF = ((Ed.d : ℕ) : F)) ∧
+    (∀ P : EdPoint, -P.x ^ 2 + P.y ^ 2 = 1 + dF * P.x ^ 2 * P.y ^ 2) ∧
+    (∀ x y : F, -x ^ 2 + y ^ 2 = 1 + dF * x ^ 2 * y ^ 2 → ∃ P : EdPoint, P.x = x ∧ P.y = y) ∧
+    (∀ P Q : EdPoint, P.x = Q.x → P.y = Q.y → P = Q) ∧
+    (∀ P Q : EdPoint,
+      1 + dF * P.x * Q.x * P.y * Q.y ≠ 0 ∧ 1 - dF * P.x * Q.x * P.y * Q.y ≠ 0 ∧
+      (P + Q).x = (P.x * Q.y + P.y * Q.x) / (1 + dF * P.x * Q.x * P.y * Q.y) ∧
+      (P + Q).y = (P.y * Q.y + P.x * Q.x) / (1 - dF * P.x * Q.x * P.y * Q.y)) ∧
+    ((0 : EdPoint).x = 0 ∧ (0 : EdPoint).y = 1) ∧
+    (∀ P : EdPoint, (-P).x = -P.x ∧ (-P).y = P.y) ∧
+    (∀ P Q : EdPoint, P - Q = P + -Q) ∧
+    (∀ (n : ℕ) (P : EdPoint), 0 • P = 0 ∧ (n + 1) • P = n • P + P) ∧
+    (∀ P Q R : EdPoint, P + Q + R = P + (Q + R)) ∧ (∀ P Q : EdPoint, P + Q = Q + P) ∧
+    (∀ P : EdPoint, P + 0 = P) ∧ (∀ P : EdPoint, -P + P = 0) := by
+  refine ⟨rfl, fun P => P.on, fun x y h => ⟨⟨x, y, h⟩, rfl, rfl⟩, fun P Q h1 h2 => Point.ext h1 h2, ?_, ⟨rfl, rfl⟩,
+    fun P => ⟨rfl, rfl⟩, fun P Q => sub_eq_add_neg P Q, fun n P => ⟨zero_nsmul P, succ_nsmul P n⟩,
+    add_assoc, add_comm, add_zero, neg_add_cancel⟩
+  intro P Q
+  obtain ⟨h1, h2⟩ := complete_dF (P.x, P.y) (Q.x, Q.y) P.on Q.on
+  exact ⟨h1, h2, Point.add_x P Q, Point.add_y P Q⟩
+/-- addition, subtraction, scalar multiplication (k < 2^260), the base point, encoding and strict decoding of the executable
+reference (`Drv.refOps` = `Ref/Ed25519.lean`, extended coordinates) are those of that group (`edOps` = the operations pinned by
+`C13_curve_points_form_a_group`): `toPoint (add a b) = toPoint a + toPoint b`, `toPoint (smul k a) = k • toPoint a`, … -/
 theorem C13_group_law : RefinesEd Drv.refOps := refOps_refines_edOps
-/-- the base point has order exactly `l` (so `PublicKey::from_private_key` is injective on reduced scalars) -/
+/-- the operations of `edOps` are the group's own -/
+theorem C13_edOps_are_the_group_operations (A B : EdPoint) (k : ℕ) :
+    edOps.add A B = A + B ∧ edOps.sub A B = A - B ∧ edOps.smul k A = k • A := ⟨rfl, rfl, rfl⟩
+/-- the base point has order exactly `l` (hence `C13_pub_of_injective`) -/
 theorem C13_base_point_order : addOrderOf edOps.base = Ed.l := addOrderOf_base
-/-- the encoding is injective on points and strict decoding inverts it: accepted key bytes and curve points correspond one to one -/
-theorem C13_encoding_bijective : Function.Injective edOps.enc ∧ ∀ A : EdPoint, edOps.dec (edOps.enc A) = some A :=
-  ⟨edOps_lawful.enc_inj, edOps_lawful.dec_enc⟩
+/-- accepted key bytes and curve points correspond one to one: the encoding is injective, strict decoding inverts it, whatever
+decodes is the encoding of what it decodes to, and the accepted byte strings are exactly the encodings (= exactly the strings
+that decode) -/
+theorem C13_encoding_bijective :
+    Function.Injective edOps.enc ∧ (∀ A : EdPoint, edOps.dec (edOps.enc A) = some A) ∧
+    (∀ (b : Bytes) (A : EdPoint), edOps.dec b = some A → edOps.enc A = b) ∧
+    (∀ b : Bytes, publicAccept b = true ↔ ∃ A : EdPoint, edOps.enc A = b) ∧
+    (∀ b : Bytes, publicAccept b = true ↔ (edOps.dec b).isSome = true) := by
+  refine ⟨edOps_lawful.enc_inj, edOps_lawful.dec_enc, fun b A h => (enc_of_dec b A h).2, fun b => ⟨fun h => ?_, ?_⟩,
+    fun b => ⟨fun h => ?_, fun h => ?_⟩⟩
+  · obtain ⟨A, -, hA⟩ := dec_of_accept b h; exact ⟨A, hA⟩
+  · rintro ⟨A, rfl⟩; exact publicAccept_enc A
+  · obtain ⟨A, hA, -⟩ := dec_of_accept b h; rw [hA]; rfl
+  · obtain ⟨A, hA⟩ := Option.isSome_iff_exists.mp h; exact (enc_of_dec b A hA).1
+/-- what `edOps.dec b = some A` means arithmetically (RFC 8032 §5.1.3): 32 bytes, the y coordinate is the low 255 bits of the
+little-endian value (which are therefore below p), the parity of the x coordinate is bit 255. With the curve equation
+(`C13_curve_points_form_a_group`) this determines `A`; it is what links the `_bytes` theorems below to arithmetic. -/
+theorem C13_dec_spec (b : Bytes) (A : EdPoint) (h : edOps.dec b = some A) :
+    b.length = 32 ∧ A.y.val = leNat b % 2 ^ 255 ∧ A.x.val % 2 = leNat b / 2 ^ 255 := dec_spec b A h
+/-- the neutral element is the key `01 00 … 00` -/
+theorem C13_identity_encoding : edOps.enc 0 = toBytesLE 1 32 ∧ edOps.dec (toBytesLE 1 32) = some 0 := by
+  refine ⟨enc_zero, ?_⟩
+  rw [← enc_zero]; exact edOps_lawful.dec_enc 0
 
 /-! ### the identities of the property, in the group (scalars are arbitrary integers; the library reduces them modulo `l`) -/
-/-- `pub(a + b) = pub(a) + pub(b)` where the scalar sum is reduced modulo `l` -/
+/-- `pub(a + b) = pub(a) + pub(b)` where the scalar sum is reduced modulo `l` (uses `l • G = 0`) -/
 theorem C13_pub_add (a b : ℕ) : ((a + b) % Ed.l) • edOps.base = a • edOps.base + b • edOps.base := by
   have h := edOps_lawful.smul_mod_base (a + b)
   rw [edOps_l] at h
@@ -304,9 +397,6 @@ theorem C13_smul_smul (a b : ℕ) : a • (b • edOps.base) = ((a * b) % Ed.l) 
   have h := edOps_lawful.smul_mod_base (a * b)
   rw [edOps_l] at h
   rw [h, mul_smul]
-/-- `(P + Q) − Q = P`, `P − P = 0`, `P + 0 = P`, `a·(P + Q) = a·P + a·Q` for ALL curve points (torsion included) -/
-theorem C13_add_sub (P Q : EdPoint) : P + Q - Q = P ∧ P - P = 0 ∧ P + 0 = P := ⟨add_sub_cancel_right P Q, sub_self P, add_zero P⟩
-theorem C13_smul_distrib (a : ℕ) (P Q : EdPoint) : a • (P + Q) = a • P + a • Q := smul_add a P Q
 /-- reduced scalars give equal public keys only when equal (the base point has order exactly `l`) -/
 theorem C13_pub_injective (a b : ℕ) (ha : a < Ed.l) (hb : b < Ed.l) (h : a • edOps.base = b • edOps.base) : a = b := by
   have hm : a ≡ b [MOD addOrderOf edOps.base] := nsmul_eq_nsmul_iff_modEq.mp h
@@ -314,8 +404,9 @@ theorem C13_pub_injective (a b : ℕ) (ha : a < Ed.l) (hb : b < Ed.l) (h : a •
   exact Nat.ModEq.eq_of_lt_of_lt hm ha hb
 
 /-! ### the operator model of key.rs (`Model/KeyOps.lean`), byte level: decode ∘ group operation ∘ encode, closure, no panic -/
-/-- `a + b` on accepted keys: both operands decode (strictly) to curve points `A`, `B`; the operator (permissive `point()`,
-extended-coordinate addition, recompression) does not panic and returns the encoding of `A + B`, which is an accepted key -/
+/-- `a + b` on accepted keys: both operands decode (strictly) to curve points `A`, `B` (`C13_dec_spec` says which); the
+operator (permissive `point()`, dalek's Niels-form addition `dalekAdd`, recompression) does not panic and returns the encoding of
+`A + B`, which is an accepted key -/
 theorem C13_add_bytes (a b : Bytes) (ha : publicAccept a = true) (hb : publicAccept b = true) :
     ∃ A B : EdPoint, edOps.dec a = some A ∧ edOps.dec b = some B ∧
       keyAdd a b = some (edOps.enc (A + B)) ∧ publicAccept (edOps.enc (A + B)) = true := by
@@ -345,14 +436,34 @@ theorem C13_pub_of_bytes (s : Bytes) (hs : secretAccept s = true) :
     keyPubOf s = edOps.enc (Ed.leNat s • edOps.base) ∧ publicAccept (keyPubOf s) = true := by
   have h := keyPubOf_eq s (secret_lt_260 s hs)
   exact ⟨h, by rw [h]; exact publicAccept_enc _⟩
-/-- scalar addition / multiplication (`sk + sk`, `sk * sk`, `sk * u8`) are arithmetic modulo `l`, and the result is an
-accepted secret key (for all operand byte strings) -/
-theorem C13_scalar_ops (a b : Bytes) (n : ℕ) :
+/-- `from_private_key` is injective on accepted secret keys -/
+theorem C13_pub_of_injective (a b : Bytes) (ha : secretAccept a = true) (hb : secretAccept b = true)
+    (h : keyPubOf a = keyPubOf b) : a = b := by
+  rw [keyPubOf_eq a (secret_lt_260 a ha), keyPubOf_eq b (secret_lt_260 b hb)] at h
+  obtain ⟨la, va⟩ := (secretAccept_iff a).mp ha
+  obtain ⟨lb, vb⟩ := (secretAccept_iff b).mp hb
+  have hv := C13_pub_injective _ _ va vb (edOps_lawful.enc_inj h)
+  have ea := toBytesLE_leNat a
+  have eb := toBytesLE_leNat b
+  rw [la] at ea; rw [lb] at eb
+  rw [← ea, ← eb, hv]
+/-- the scalar operators on ACCEPTED secret keys (`sk + sk`, `sk * sk`, `sk * u8` with `n < 256`): the model transcribes
+dalek's `Scalar52::add` (limb sum, then one borrow-and-add-back subtraction of `l`) and `Scalar52::mul` (two Montgomery
+reductions with `R = 2^260`) on the integer value of the limbs (Model/KeyOps `sc52Add`, `sc52Mul`); on reduced operands they
+are addition / multiplication modulo `l`, and the result is an accepted secret key. The acceptance hypotheses are needed:
+`sc52Add` performs a single subtraction (Proofs/KeyOps: `sc52Add (2l) (2l) ≠ (4l) % l`); there is no `PrivateKey` value with
+other bytes unless it was built without `from_slice`. -/
+theorem C13_scalar_ops (a b : Bytes) (n : ℕ) (ha : secretAccept a = true) (hb : secretAccept b = true) (hn : n < 256) :
     (secretAccept (scalarAdd a b) = true ∧ Ed.leNat (scalarAdd a b) = (Ed.leNat a + Ed.leNat b) % Ed.l) ∧
     (secretAccept (scalarMul a b) = true ∧ Ed.leNat (scalarMul a b) = (Ed.leNat a * Ed.leNat b) % Ed.l) ∧
-    (secretAccept (scalarMulU8 a n) = true ∧ Ed.leNat (scalarMulU8 a n) = (Ed.leNat a * (n % 256)) % Ed.l) :=
-  ⟨secretAccept_toBytesLE _ (Nat.mod_lt _ Monero.Keys.l_pos), secretAccept_toBytesLE _ (Nat.mod_lt _ Monero.Keys.l_pos),
-   secretAccept_toBytesLE _ (Nat.mod_lt _ Monero.Keys.l_pos)⟩
+    (secretAccept (scalarMulU8 a n) = true ∧ Ed.leNat (scalarMulU8 a n) = (Ed.leNat a * n) % Ed.l) := by
+  have va := ((secretAccept_iff a).mp ha).2
+  have vb := ((secretAccept_iff b).mp hb).2
+  have vn : n < Ed.l := Nat.lt_trans hn (by decide)
+  unfold scalarAdd scalarMul scalarMulU8
+  rw [sc52Add_eq _ _ va vb, sc52Mul_eq _ _ va vb, sc52Mul_eq _ _ va vn]
+  exact ⟨secretAccept_toBytesLE _ (Nat.mod_lt _ Monero.Keys.l_pos), secretAccept_toBytesLE _ (Nat.mod_lt _ Monero.Keys.l_pos),
+    secretAccept_toBytesLE _ (Nat.mod_lt _ Monero.Keys.l_pos)⟩
 /-- the harness operations (`from_slice` of each operand, then the operator) never reach the `expect` of `point()` -/
 theorem C13_operators_no_panic (a b s : Bytes) :
     opAdd a b ≠ some none ∧ opSub a b ≠ some none ∧ opSmul s a ≠ some none := by
@@ -383,13 +494,13 @@ theorem C13_operators_no_panic (a b s : Bytes) :
 /-- `pub(a) + pub(b) = pub(a + b)` -/
 theorem C13_pub_add_bytes (a b : Bytes) (ha : secretAccept a = true) (hb : secretAccept b = true) :
     keyAdd (keyPubOf a) (keyPubOf b) = some (keyPubOf (scalarAdd a b)) := by
-  obtain ⟨⟨hs, hv⟩, -, -⟩ := C13_scalar_ops a b 0
+  obtain ⟨⟨hs, hv⟩, -, -⟩ := C13_scalar_ops a b 0 ha hb (by norm_num)
   rw [keyPubOf_eq a (secret_lt_260 a ha), keyPubOf_eq b (secret_lt_260 b hb), keyPubOf_eq _ (secret_lt_260 _ hs), hv,
     keyAdd_enc, C13_pub_add]
 /-- `a * (b * G) = (a·b) * G` -/
 theorem C13_smul_pub_bytes (a b : Bytes) (ha : secretAccept a = true) (hb : secretAccept b = true) :
     keySmul a (keyPubOf b) = some (keyPubOf (scalarMul a b)) := by
-  obtain ⟨-, ⟨hs, hv⟩, -⟩ := C13_scalar_ops a b 0
+  obtain ⟨-, ⟨hs, hv⟩, -⟩ := C13_scalar_ops a b 0 ha hb (by norm_num)
   rw [keyPubOf_eq b (secret_lt_260 b hb), keyPubOf_eq _ (secret_lt_260 _ hs), hv,
     keySmul_enc a (secret_lt_260 a ha), C13_smul_smul]
 /-- `(P + Q) − Q = P` -/
@@ -401,7 +512,41 @@ theorem C13_add_sub_bytes (p q : Bytes) (hp : publicAccept p = true) (hq : publi
   · have := keyAdd_enc A B; rwa [eA, eB] at this
   · have := keySub_enc (A + B) B
     rwa [add_sub_cancel_right, eA, eB] at this
-/-- the hypotheses are satisfiable -/
-example : secretAccept (toBytesLE 5 32) = true := by decide +kernel
+/-- `P − P = 0`, `P + 0 = P`, `0 + P = P`, `P − 0 = P` on the operator model, `0` being the key `01 00 … 00`
+(`C13_identity_encoding`) — for every accepted key, torsion included -/
+theorem C13_add_sub (p : Bytes) (hp : publicAccept p = true) :
+    keySub p p = some (toBytesLE 1 32) ∧ keyAdd p (toBytesLE 1 32) = some p ∧
+    keyAdd (toBytesLE 1 32) p = some p ∧ keySub p (toBytesLE 1 32) = some p := by
+  obtain ⟨A, -, eA⟩ := dec_of_accept p hp
+  have h1 := keySub_enc A A
+  have h2 := keyAdd_enc A 0
+  have h3 := keyAdd_enc 0 A
+  have h4 := keySub_enc A 0
+  rw [sub_self, enc_zero, eA] at h1
+  rw [add_zero, enc_zero, eA] at h2
+  rw [zero_add, enc_zero, eA] at h3
+  rw [sub_zero, enc_zero, eA] at h4
+  exact ⟨h1, h2, h3, h4⟩
+/-- `a·(P + Q) = a·P + a·Q` on the operator model: none of the five operator applications panics and the two sides are the
+same key -/
+theorem C13_smul_distrib (s p q : Bytes) (hs : secretAccept s = true) (hp : publicAccept p = true)
+    (hq : publicAccept q = true) :
+    ∃ r u v w, keyAdd p q = some r ∧ keySmul s p = some u ∧ keySmul s q = some v ∧
+      keySmul s r = some w ∧ keyAdd u v = some w := by
+  obtain ⟨A, -, eA⟩ := dec_of_accept p hp
+  obtain ⟨B, -, eB⟩ := dec_of_accept q hq
+  have hs' := secret_lt_260 s hs
+  refine ⟨edOps.enc (A + B), edOps.enc (Ed.leNat s • A), edOps.enc (Ed.leNat s • B), edOps.enc (Ed.leNat s • (A + B)),
+    ?_, ?_, ?_, keySmul_enc s hs' _, ?_⟩
+  · have := keyAdd_enc A B; rwa [eA, eB] at this
+  · have := keySmul_enc s hs' A; rwa [eA] at this
+  · have := keySmul_enc s hs' B; rwa [eB] at this
+  · rw [keyAdd_enc, smul_add]
+/-- the hypotheses are satisfiable: accepted secret keys (5, l − 1), accepted public keys (the base point, the identity, a
+point of order 4) -/
+example : secretAccept (toBytesLE 5 32) = true ∧ secretAccept (toBytesLE (Ed.l - 1) 32) = true := by decide +kernel
+set_option maxRecDepth 100000 in
+example : publicAccept (toBytesLE Ed.Gy 32) = true ∧ publicAccept (toBytesLE 1 32) = true ∧
+    publicAccept (List.replicate 32 0) = true := by decide +kernel
 end GroupLaw
 end C13
